@@ -75,8 +75,70 @@ pub fn exec(op: &str, a: &[&str]) -> Option<String> {
             tx.inputs[0].unlock_script = Script(u);
             Some(validate(&tx, &utxos, a[2] == "g", a[3] == "1"))
         }
+        // c03.mut <seed> <nin> <nout> <idx> <type> <mutation>: wallet-signed P2PKH spend of input idx, then one mutation
+        "c03.mut" => Some(mutated_spend(a[0].parse().unwrap(), a[1].parse().unwrap(), a[2].parse().unwrap(), a[3].parse().unwrap(), a[4].parse().unwrap(), a[5])),
         _ => None,
     }
+}
+
+pub const MUTATIONS: [&str; 21] = ["none", "version", "locktime", "in_seq_self", "in_seq_other", "in_prev_self", "in_prev_other", "in_add",
+    "out_amount_same", "out_amount_other", "out_script_same", "out_script_other", "out_add", "amount", "spent_script", "key",
+    "sig_flip_r", "sig_flip_s", "sig_type", "unlock_other", "out_remove_last"];
+
+/// Builds a funding transaction (output idx is P2PKH to key 0, every other output is anyone-can-spend OP_1), a spending
+/// transaction with `nin` inputs and `nout` outputs, signs input `idx` with the library's wallet under sighash type `ty`,
+/// applies the named mutation and validates.
+fn mutated_spend(seed: u64, nin: usize, nout: usize, idx: usize, ty: u8, mutation: &str) -> String {
+    use chain_gang::network::Network;
+    use chain_gang::wallet::Wallet;
+    let mut rng = Rng::new(seed);
+    let ks = keys();
+    let sk = SigningKey::from_slice(&ks[0]).unwrap(); let vk = VerifyingKey::from(&sk);
+    let wallet = Wallet::new(sk, vk, Network::BSV_Mainnet);
+    let p2pkh = create_lock_script(&hash160(&pubkey(&ks[0]))).0;
+    // funding tx: nin + 2 outputs (two spare ones for "other outpoint" mutations)
+    let fund_outputs: Vec<TxOut> = (0..nin + 2).map(|i| TxOut { satoshis: 1000 + i as i64, lock_script: Script(if i == idx { p2pkh.clone() } else { vec![0x51] }) }).collect();
+    let funding = Tx { version: 1, inputs: vec![TxIn { prev_output: OutPoint { hash: Hash256([7u8; 32]), index: 0 }, unlock_script: Script(vec![]), sequence: 0xffffffff }], outputs: fund_outputs, lock_time: 0 };
+    let fh = funding.hash();
+    let mut tx = Tx { version: 2,
+        inputs: (0..nin).map(|i| TxIn { prev_output: OutPoint { hash: fh, index: i as u32 }, unlock_script: Script(vec![]), sequence: 0xfffffff0 + (rng.below(8) as u32) }).collect(),
+        outputs: (0..nout).map(|i| TxOut { satoshis: 10 + i as i64, lock_script: Script(vec![0x51, 0x75, 0x51 + (i as u8 % 4)]) }).collect(),
+        lock_time: rng.below(100) as u32 };
+    if wallet.sign_tx_input(&funding, &mut tx, idx, ty).is_err() { return "sign-error".into(); }
+    let mut utxos: LinkedHashMap<OutPoint, TxOut> = LinkedHashMap::new();
+    for (i, o) in funding.outputs.iter().enumerate() { utxos.insert(OutPoint { hash: fh, index: i as u32 }, o.clone()); }
+    let other = if nin > 1 { (idx + 1) % nin } else { idx };
+    let oother = if nout > 1 { (idx + 1) % nout } else { idx };
+    let spare = OutPoint { hash: fh, index: nin as u32 };
+    match mutation {
+        "none" => {}
+        "version" => tx.version += 1,
+        "locktime" => tx.lock_time += 1,
+        "in_seq_self" => tx.inputs[idx].sequence -= 1,
+        "in_seq_other" => { if nin < 2 { return "n/a".into(); } tx.inputs[other].sequence -= 1; }
+        "in_prev_self" => { // a different outpoint carrying the same lock script and amount
+            let mut o = funding.outputs[idx].clone(); o.satoshis = funding.outputs[idx].satoshis; utxos.insert(spare.clone(), o); tx.inputs[idx].prev_output = spare.clone(); }
+        "in_prev_other" => { if nin < 2 { return "n/a".into(); } tx.inputs[other].prev_output = spare.clone(); }
+        "in_add" => tx.inputs.push(TxIn { prev_output: spare.clone(), unlock_script: Script(vec![]), sequence: 0xffffffff }),
+        "out_amount_same" => { if idx >= nout { return "n/a".into(); } tx.outputs[idx].satoshis += 1; }
+        "out_amount_other" => { if nout < 2 || oother == idx { return "n/a".into(); } tx.outputs[oother].satoshis += 1; }
+        "out_script_same" => { if idx >= nout { return "n/a".into(); } tx.outputs[idx].lock_script.0.push(0x61); }
+        "out_script_other" => { if nout < 2 || oother == idx { return "n/a".into(); } tx.outputs[oother].lock_script.0.push(0x61); }
+        "out_add" => tx.outputs.push(TxOut { satoshis: 1, lock_script: Script(vec![0x51]) }),
+        "out_remove_last" => { if nout < 2 || idx == nout - 1 { return "n/a".into(); } tx.outputs.pop(); }
+        "amount" => { let k = OutPoint { hash: fh, index: idx as u32 }; let mut o = utxos.get(&k).unwrap().clone(); o.satoshis -= 1; utxos.insert(k, o); }
+        "spent_script" => { let k = OutPoint { hash: fh, index: idx as u32 }; let mut o = utxos.get(&k).unwrap().clone(); o.lock_script.0[5] ^= 1; utxos.insert(k, o); }
+        "key" => { // the same signature presented with another key
+            let sig_len = tx.inputs[idx].unlock_script.0[0] as usize; let sig = tx.inputs[idx].unlock_script.0[1..1 + sig_len].to_vec();
+            tx.inputs[idx].unlock_script = create_unlock_script(&sig, &pubkey(&ks[1])); }
+        "sig_flip_r" => { tx.inputs[idx].unlock_script.0[7] ^= 1; }
+        "sig_flip_s" => { let l = tx.inputs[idx].unlock_script.0[0] as usize; tx.inputs[idx].unlock_script.0[l - 3] ^= 1; }
+        "sig_type" => { let l = tx.inputs[idx].unlock_script.0[0] as usize; tx.inputs[idx].unlock_script.0[l] ^= 0x80; }
+        "unlock_other" => { if nin < 2 { return "n/a".into(); } tx.inputs[other].unlock_script = Script(vec![0x61]); }
+        _ => return "bad-mutation".into(),
+    }
+    let g = rng.chance(1, 2);
+    match tx.validate(true, g, &utxos, &HashSet::new()) { Ok(()) => "ok".into(), Err(_) => "err".into() }
 }
 
 /// atoms designed to swallow what follows the unlocking script if it were evaluated as a prefix
@@ -129,6 +191,16 @@ pub fn gen(tier: &str, rng: &mut Rng, out: &mut Vec<String>) {
             out.push(format!("c03.spend {} {} {} 1", hexd(lock), hexd(&s2), if rng.chance(1, 2) { "g" } else { "p" }));
         }
     }
+    // (c) coverage: every single-field mutation of a wallet-signed spend x six FORKID types x every input position
+    let nm = if thorough { 40 } else { 4 };
+    for round in 0..nm { for nin in 1..=5usize { for idx in 0..nin { for ty in [0x41u8, 0x42, 0x43, 0xc1, 0xc2, 0xc3] {
+        let nout = (idx + 1).max(1 + (round + nin) % 5).min(5).max(idx + 1);
+        for m in MUTATIONS.iter() {
+            let needs_two_in = ["in_seq_other", "in_prev_other", "unlock_other"].contains(m);
+            let needs_other_out = ["out_amount_other", "out_script_other"].contains(m);
+            if (needs_two_in && nin < 2) || (needs_other_out && nout < 2) || (*m == "out_remove_last" && (nout < 2 || idx == nout - 1)) { continue; }
+            out.push(format!("c03.mut {} {} {} {} {} {}", rng.next() % 1_000_000, nin, nout, idx, ty, m)); }
+    } } } }
     // (b) signatures: deterministic, strict DER, low S, verify under the signer's key (independent verifier in the driver)
     let ns = if thorough { 3000 } else { 300 };
     for i in 0..ns {
